@@ -72,6 +72,8 @@ def find_writers(ctx, funcs):
         for n, c, name in all_calls(ctx, fi, cfg):
             if name == "builtins.open" and is_write_mode(open_mode(c)):
                 out.append((fi, cfg, n, c))
+            elif name == "os.fdopen" and len(c.args) >= 2 and isinstance(c.args[1], ast.Constant) and is_write_mode(c.args[1].value):
+                out.append((fi, cfg, n, c))
     return out
 
 
@@ -157,12 +159,43 @@ def _listing_predicates(ctx, fi, env):
     return preds
 
 
+def writer_tmp_expr(ctx, fi, cfg, open_call):
+    """Expression of the temporary file name a writer opens (None when it
+    opens one of its parameters, i.e. the final name itself)."""
+    pa = arg(open_call, 0, "file")
+    if norm(open_call.func) == "os.fdopen":
+        for st in walk_shallow(fi.node):
+            if isinstance(st, ast.Assign) and isinstance(st.targets[0], ast.Tuple) and len(st.targets[0].elts) == 2 and isinstance(pa, ast.Name) and norm(st.targets[0].elts[0]) == pa.id \
+                    and isinstance(st.value, ast.Call) and callee_name(ctx, fi, st.value) == "tempfile.mkstemp":
+                e = ast.Subscript(value=st.value, slice=ast.Constant(1), ctx=ast.Load())
+                ast.fix_missing_locations(ast.copy_location(e, st.value))
+                return e
+        raise AnalysisError("idiom changed: descriptor opened by %s does not come from tempfile.mkstemp" % fi.qualname)
+    if isinstance(pa, ast.Name) and pa.id in fi.params:
+        return None
+    if isinstance(pa, ast.Name):
+        d = single_def(fi, pa.id, cfg)
+        if d is not None:
+            return d[1]
+    raise AnalysisError("idiom changed: the temporary opened by %s (`%s`) has no single definition" % (fi.qualname, norm(pa) if pa is not None else None))
+
+
 def check_writer(ctx, rr, fi, cfg, open_node, open_call):
     """R1 on one writer function."""
     q = fi.qualname
     params = fi.positional
     path_arg = arg(open_call, 0, "file")
     need(path_arg is not None, "open() without a path in %s" % q)
+    mk = None
+    if norm(open_call.func) == "os.fdopen":
+        # fd, name = tempfile.mkstemp(...): the file behind the descriptor is `name`
+        need(isinstance(path_arg, ast.Name), "idiom changed: os.fdopen on %s" % norm(path_arg))
+        for st in walk_shallow(fi.node):
+            if isinstance(st, ast.Assign) and isinstance(st.targets[0], ast.Tuple) and len(st.targets[0].elts) == 2 and norm(st.targets[0].elts[0]) == path_arg.id \
+                    and isinstance(st.value, ast.Call) and callee_name(ctx, fi, st.value) == "tempfile.mkstemp" and isinstance(st.targets[0].elts[1], ast.Name):
+                mk = (st.targets[0].elts[1].id, st.value)
+        need(mk is not None, "idiom changed: descriptor %s in %s does not come from tempfile.mkstemp" % (path_arg.id, q))
+        path_arg = ast.Name(id=mk[0], ctx=ast.Load())
 
     # which parameter is the final name: the one passed to os.replace as dst,
     # or else the one opened directly
@@ -181,9 +214,13 @@ def check_writer(ctx, rr, fi, cfg, open_node, open_call):
 
     need(isinstance(path_arg, ast.Name), "temporary path is not a simple local in %s: %s" % (q, norm(path_arg)))
     tmp = path_arg.id
-    d = single_def(fi, tmp, cfg)
-    need(d is not None, "temporary %r in %s has no single definition" % (tmp, q))
-    tmp_node, tmp_expr = d
+    if mk is not None:
+        tmp_expr = ast.Subscript(value=mk[1], slice=ast.Constant(1), ctx=ast.Load())
+        ast.fix_missing_locations(ast.copy_location(tmp_expr, mk[1]))
+    else:
+        d = single_def(fi, tmp, cfg)
+        need(d is not None, "temporary %r in %s has no single definition" % (tmp, q))
+        tmp_node, tmp_expr = d
 
     for rn_node, rn in renames:
         src, dst = arg(rn, 0, "src"), arg(rn, 1, "dst")
@@ -196,8 +233,12 @@ def check_writer(ctx, rr, fi, cfg, open_node, open_call):
 
         # (b) same directory + process-unique component
         from ..util import calls_transitive
-        uniq = [u for u in calls_transitive(ctx, fi, tmp_expr) if u in UNIQUE_SOURCES]
-        if not uniq:
+        uniq_any = [u for u in calls_transitive(ctx, fi, tmp_expr) if u in UNIQUE_SOURCES]
+        uniq = [u for u in calls_transitive(ctx, fi, tmp_expr, skip_memoised=True) if u in UNIQUE_SOURCES]
+        if uniq_any and not uniq:
+            rr.bad(ctx.finding(rr.rule, fi, tmp_expr, "the unique component of the temporary name %s comes from a memoised helper: it is computed once per process and inherited by every worker the process forks, so two forked growers of one batch write the same temporary "
+                               "(one truncates the other's finished file, which is then renamed into place)" % norm(tmp_expr), construct="tmp-unique-memoised " + norm(tmp_expr)), "R1b unique temporary")
+        elif not uniq:
             rr.bad(ctx.finding(rr.rule, fi, tmp_expr, "temporary name %s has no process-unique component: two growers of the same batch (or of any batch, if the name is constant) write the same temporary" % norm(tmp_expr),
                                construct="tmp-not-unique " + norm(tmp_expr)), "R1b unique temporary")
         else:
@@ -416,6 +457,33 @@ def run(ctx):
                 r3.bad(ctx.finding(r3.rule, wl, c, "the load is not preceded on every path by the existence poll of the same name", construct="load-not-dominated"), "load after poll")
             else:
                 r3.ok("%s is preceded by the poll on %r" % (norm(c), x))
+    # wait=True means: wait until the result exists -- no exit of the poll loop by an exception for that value
+    from ..flow import Flow, TRUE
+    gi = build_cfg(init.node)
+    fli = Flow(gi, {"wait": TRUE}).run()
+    env_i = None
+    for nd in gi.nodes:
+        if nd.kind == "def" and getattr(nd.ast, "name", None) == wl.name and nd.id in fli.IN:
+            env_i = fli.IN[nd.id]
+    closure = {}
+    if env_i is not None:
+        free = {x.id for x in ast.walk(wl.node) if isinstance(x, ast.Name)} - set(wl.params)
+        for nm_ in free:
+            v = env_i.get(nm_) if hasattr(env_i, "get") else None
+            if v is not None:
+                closure[nm_] = v
+    closure.setdefault("wait", TRUE)
+    flw = Flow(g, closure).run()
+    for p, how in polls:
+        if how != "inline":
+            continue
+        raises = [r for r in g.nodes if r.kind == "stmt" and isinstance(r.ast, ast.Raise) and any(r.ast is x for x in ast.walk(p.stmt))]
+        live = [r for r in raises if r.id in flw.visited]
+        if live:
+            r3.bad(ctx.finding(r3.rule, wl, live[0].ast, "with wait=True the poll loop can be left by `%s` while the result does not exist yet: a waiting reaper fails instead of returning the results once the growers finish" % norm(live[0].ast)[:70],
+                               construct="poll-loop-raise"), "poll loop has no failing exit for wait=True")
+        else:
+            r3.ok("wait=True: the poll loop has no exit by exception (%d raise statement(s), none feasible)" % len(raises))
     # the Reaper picks the polling loader in wait mode
     sel = [n for n in walk_shallow(init.node) if isinstance(n, ast.IfExp) and "wait" in norm(n.test)]
     oksel = False
